@@ -84,7 +84,26 @@ def run_case(case, ctx):
     opts.update(dtype_amps=['float64', 'float32'][int(rng.integers(0, 2))],
                 dtype_templates=['float32', 'float32', 'float64'][int(rng.integers(0, 3))],
                 dtype_feat=['float32', 'float64'][int(rng.integers(0, 2))])
+    if case['seed'][-1] % 13 == 7 and not case.get('large'):
+        # as many spikes as templates.npy has rows (tables with one row per template and tables with one row per spike then
+        # have the same length); several spikes per template, some templates without spikes
+        opts.update(features='sparse', spikeless='none', clusters=opts['clusters'] if opts['clusters'] != 'absent' else 'same')
+        opts['ns'] = opts['nt'] + 1
     spec = random_spec(rng, **opts)
+    if case['seed'][-1] % 13 == 7 and not case.get('large') and spec.n_spikes == spec.n_templates + 1 and spec.pc_feature_spike_ids is None \
+            and spec.template_features is None and not spec.spike_attrs:
+        keep_ = slice(0, spec.n_templates)
+        st_ = spec.spike_templates[keep_].copy()
+        st_[:] = st_[::-1] if len(set(st_.tolist())) > 1 else st_          # (spike i does not belong to template i)
+        st_[0] = st_[-1]
+        spec.spike_templates = st_
+        spec.spike_samples = spec.spike_samples[keep_]
+        spec.amplitudes = spec.amplitudes[keep_]
+        if spec.spike_clusters is not None:
+            spec.spike_clusters = st_.copy()
+        if spec.pc_features is not None:
+            spec.pc_features = spec.pc_features[keep_]
+        spec.notes['as_many_spikes_as_templates'] = True
     if rng.random() < 0.25:
         spec.notes['template_scaling'] = [8.0, 0.5][int(rng.integers(0, 2))]   # params.py option; not part of the amplitude formulas
     if rng.random() < 0.2:
